@@ -6,7 +6,8 @@ import re
 from .. import common, replay, tla
 from ..adapters import resources as ra
 
-SWITCHES = ('ImplicitMapsLinked', 'ClearAllLayers', 'SetItemPopsAllLayers', 'StaticSlotsUnmangled', 'CacheTestsFlag')
+SWITCHES = ('ImplicitMapsLinked', 'ClearAllLayers', 'SetItemPopsAllLayers', 'StaticSlotsUnmangled', 'CacheTestsFlag',
+            'WalkLinksOnlyCreated')
 
 INV_TREE = ['TypeOK', 'OnePlace', 'PathEquivalence', 'DefaultIffKeyError', 'HandleXorMap', 'LatestWins', 'BackLinks',
             'RootBackLinks']
